@@ -423,6 +423,15 @@ pub fn run(ctx: &Ctx) -> Outcome {
             let mut co = CaseOut::default();
             co.hash = 1;
             co.nontrivial = true;
+            // (an allocation that is refused aborts the process instead of unwinding: ask first, in a way that can say no)
+            {
+                let mut probe: Vec<u32> = Vec::new();
+                if probe.try_reserve_exact(1 << 29).is_err() {
+                    st.add("surfaces_of_2_to_the_29_pixels_skipped_allocation_refused", 1);
+                    co.nontrivial = false;
+                    return co;
+                }
+            }
             let res = guarded(|| {
                 let mut dt = DrawTarget::new(32768, 16384);
                 let words = dt.get_data().len();
